@@ -168,6 +168,45 @@ def h_indexed_on_register(env, N, k, q):
     _check_gate_on_register(env, M, gate, tab, N, [q], '')
 
 
+def h_gate_reuse(env, N, name, qubits, order):
+    """one gate object used repeatedly in the given order of calls ('f' forward, 'b' backward, 'c' compile): every call
+    acts as the textbook gate or its inverse (lazy inversion, compilation and caching must not change the gate)"""
+    M = Mods(env)
+    qs = [np.int64(q) for q in qubits] if order.startswith('n') else list(qubits)
+    order = order.lstrip('n')
+    res = env.run(lambda: getattr(M.ci, name)(*qs))
+    env.goal('constructed', b_not(res.raised))
+    if res.value is None:
+        return
+    gate = res.value
+    if name == 'CNOT':
+        tab = oracle_table('CNOT_lt' if qubits[0] < qubits[1] else 'CNOT_gt', 2)
+    else:
+        tab = oracle_table(name, 1)
+    mask = [i in qubits for i in range(N)]
+    tg, tp = embedded_table(oarr(tab[0]), oarr(tab[1]), mask, N)
+    gs = env.bits('in', (1, 2 * N))
+    ps = env.phases('in_ps', (1,))
+    cur_g, cur_p = gs[0], ps[0]
+    obj = M.pa.PauliList(gs.copy(), ps.copy())
+    pending_inverse = []
+    for k, step in enumerate(order):
+        if step == 'c':
+            r = env.run(lambda: gate.compile())
+            env.goal('step%d_compile' % k, b_not(r.raised))
+            continue
+        if step == 'f':
+            r = env.run(lambda: gate.forward(obj))
+            cur_g, cur_p = ref.ref_transform(cur_g, cur_p, tg, tp)
+            env.goal('step%d_forward' % k, b_and(b_not(r.raised), b_and(arr_eq(obj.gs[0], cur_g), eq(obj.ps[0], cur_p))))
+        else:
+            # backward: the unique operator whose forward image is the current one
+            r = env.run(lambda: gate.backward(obj))
+            fg, fp = ref.ref_transform(obj.gs[0], obj.ps[0], tg, tp)
+            env.goal('step%d_backward' % k, b_and(b_not(r.raised), b_and(arr_eq(fg, cur_g), eq(fp, cur_p))))
+            cur_g, cur_p = oarr(list(np.asarray(obj.gs[0], dtype=object))), obj.ps[0]
+
+
 def jobs(tier):
     J = []
     nmax = 3 if tier == 'quick' else 4
@@ -182,5 +221,10 @@ def jobs(tier):
             J.append(dict(harness=('c11', 'h_cnot'), params=dict(N=N, pairs=[[c, t]])))
             J.append(dict(harness=('c11', 'h_cnot'), params=dict(N=N, pairs=[[c, t], [t, c]])))
             J.append(dict(harness=('c11', 'h_cnot'), params=dict(N=N, pairs=[[t, c], [c, t], [t, c]])))
+    for N in (2, 3):
+        for name, qsets in (('H', [[0]]), ('S', [[N - 1]]), ('Y', [[0]]), ('CNOT', [[0, 1], [1, 0], [N - 1, 0]])):
+            for qubits in qsets:
+                for order in ('bf', 'fbf', 'cfb', 'fcf', 'cbcf', 'nfb', 'ncf'):
+                    J.append(dict(harness=('c11', 'h_gate_reuse'), params=dict(N=N, name=name, qubits=qubits, order=order)))
     J.append(dict(harness=('c11', 'h_indexed'), params=dict(N=1), cost=50))
     return J
